@@ -1003,6 +1003,13 @@ impl<'de> serde::de::Visitor<'de> for ParsedValueSeed<'_> {
     where
         E: serde::de::Error,
     {
+        if self.in_range {
+            // a range branch can't default, there is nothing to render for it.
+            return Err(serde::de::Error::invalid_type(
+                serde::de::Unexpected::Unit,
+                &self,
+            ));
+        }
         Ok(ParsedValue::Default)
     }
 
